@@ -65,6 +65,7 @@ func c17HistOne(o *hx.Out, in c17HistInput) error {
 
 	var stages []hx.Sx
 	calls, anyTable, addedAfterReport, sameNameAgain := 0, false, false, false
+	overflow := false
 	seenNames := map[string]bool{}
 	for _, st := range in.Stages {
 		var added []hx.Sx
@@ -93,6 +94,7 @@ func c17HistOne(o *hx.Out, in c17HistInput) error {
 			break
 		}
 		calls++
+		overflow = overflow || c17AnyOverflow(c)
 		orc, _ := c17Oracles(o, base, c, tables)
 		collSx, tsx := c17CollSx(c), c17TablesSx(tables)
 		if len(tables) > 0 {
@@ -158,6 +160,10 @@ func c17HistOne(o *hx.Out, in c17HistInput) error {
 	var tags []string
 	if calls >= 2 {
 		tags = append(tags, "c17_tables_called_again")
+	}
+	if overflow { // some report of the history was made on a sample the finding's mechanism hits
+		tags = append(tags, "C17_binary64_overflow")
+		o.Count("tag=C17_binary64_overflow")
 	}
 	o.Add(hx.L(hx.S("hist"), opts, hx.List(stages)), in, fmt.Sprintf("%v", in), anyTable, tags...)
 	return nil
